@@ -437,10 +437,23 @@ def gen_stream(tier, rng, frontends=("pandas", "numpy", "netcdf", "xarray"), fau
                     order.append(e["stream"])
             entries = [e for s in order for e in entries if e["stream"] == s]
             cfg.append({"start": a, "end": b, "entries": entries})
+        # rows need not be chronological (appended deployments, newest first, late records): a window is a
+        # predicate on each row's own time, not a block of positions
+        order = rng.choice(["sorted", "sorted", "sorted", "appended", "descending", "shuffled"])
+        time_u = list(time)
+        if n >= 2 and order == "appended":
+            k = rng.randint(1, n - 1)
+            time_u = time[k:] + time[:k]
+        elif order == "descending":
+            time_u = time[::-1]
+        elif order == "shuffled":
+            rng.shuffle(time_u)
         for fe in frontends:
             if fe in ("xarray", "netcdf") and not has_time and n == 0:
                 continue
-            cases.append({"frontend": fe, "n": n, "time": time if has_time else None, "z": axes["z"], "lat": axes["lat"],
+            # (xarray selects by label slice, which needs a sorted coordinate: chronological rows only)
+            cases.append({"frontend": fe, "n": n, "time": (time if fe == "xarray" else time_u) if has_time else None,
+                          "z": axes["z"], "lat": axes["lat"],
                           "lon": axes["lon"], "cols": cols, "index": index if fe == "pandas" else list(range(n)),
                           "cfg": cfg})
             if rng.random() < 0.4:
